@@ -57,7 +57,7 @@ CLAIMED["C03"] = dict(
 
 CLAIMED["C15"] = dict(
     engine="E6+E1",
-    technique="static analysis: interprocedural cache-invalidation completeness (dependency writes vs reachable topologyHasChanged_() per public entry point), override/flag-source checks, call-graph reachability from rootAt, orientation agreement between the edge table and the node table written by one function (convention read from the link helpers), who-reads and who-writes rules on the id allocators (never compared with counts; assigned only under a comparison with their current value); ordering rule unlink-before-link for members re-parenting one node",
+    technique="static analysis: interprocedural cache-invalidation completeness (dependency writes vs reachable topologyHasChanged_() per public entry point), override/flag-source checks, call-graph reachability from rootAt, orientation agreement between the edge table and the node table written by one function (convention read from the link helpers), who-reads and who-writes rules on the id allocators (never compared with counts; assigned only under a comparison with their current value); ordering rule unlink-before-link for members re-parenting one node; leaf test of the recursive leaf collectors (a node is a leaf exactly when it has no son)",
     level=("Static rules decide, for every history: each public entry point of the tree/DAG containers and their observers that writes a dependency of the cached validity predicate reaches the virtual "
            "invalidator afterwards; the derived invalidator really overrides the base virtual and clears the flag; the flag only becomes true from isTree()/isDA(); re-rooting cannot erase edges, notify "
            "deletions or allocate edge ids on the graph itself; the edge reversal of re-rooting records the edge with the same orientation in both tables; the id allocators are never used as element counts and never move backwards. "
